@@ -1,7 +1,506 @@
-//! C14: not built yet.
-use anyhow::{bail, Result};
-use serde_json::Value;
+//! C14: dukenest::{nest_jar, apply_nests_to_mappings, undo_nests_to_mappings, remap_nests}, Nests::read.
+//!
+//! ops  {"op":"nest_jar","jar":recipe,"nests":[nest..],"via":"value"|"text","text":s,"others":{name:text}?}
+//!          -> {"st":"ok","names":{name:true},"classes":{name:{rows:{key:count},rowseq:[[kind,owner,name,desc]..],ic:[[inner,outer,name,acc]..],
+//!              em:[]|[class,mname,mdesc],res:id,ver:[maj,min],acc:n}},"others":{name:text},"dirs":[name..],"resIn":{name:id}} | {"st":"err"}
+//!      {"op":"agree","jar":recipe,"nests":[..],"tree":tree}          -> {"st":"ok","jarNames":{..},"mapNames":{..}} | {"st":"err","where":..}
+//!      {"op":"apply"|"undo"|"applyundo","tree":tree,"nests":[..]}    -> {"st":"ok","src":tree with the classes' target names blanked,"v":tree} | {"st":"err"}
+//!      {"op":"remap_nests","tree":tree,"nests":[..]}                 -> {"st":"ok","nests":{cls:nest},"order":[cls..]} | {"st":"err"}
+//!      {"op":"read","text":s}                                         -> {"st":"ok","nests":{cls:nest},"order":[cls..]} | {"st":"err"}
+//! nest   {"cls","encl","m":[]|[name,desc],"inner","acc":n,"type":"anonymous"|"inner"|"local"}
+//! recipe {class name: {"super":s,"itfs":[s..],"fields":[[name,desc]..],"methods":[[name,desc]..],"code":[[kind,owner,name,desc]..],
+//!          "ic":[[inner,outer,name,acc]..],"em":[]|[class,mname,mdesc]}}; the `code` rows become instructions of a method refs()V
+//!          (insn_class, insn_field, insn_method, ldc_class, ldc_mtype, catch, exceptions; an optional 5th cell picks the opcode)
+//! The driver only converts values, calls the API and projects results (classes re-read with cfkit); it computes no expectation.
+use std::collections::BTreeMap;
+use std::hash::{Hash, Hasher};
+use std::marker::PhantomData;
+use anyhow::{anyhow, bail, Context, Result};
+use indexmap::IndexMap;
+use rand::rngs::StdRng;
+use rand::{Rng, SeedableRng};
+use serde_json::{json, Map, Value};
+use duke::tree::class::ObjClassName;
+use duke::tree::method::{MethodDescriptor, MethodName, MethodNameAndDesc};
+use dukebox::storage::UnnamedMemJar;
+use dukenest::nest::{Nest, NestType, Nests};
+use quill::tree::mappings::Mappings;
+use crate::gen_quill::pick;
+use crate::jarkit::{unzip_entries, zip_entries};
+use crate::proj_quill::*;
 
-pub fn exec(_v: &Value) -> Result<Value> { bail!("C14: driver not built") }
+pub struct NsA;
+pub struct NsB;
 
-pub fn gen(_seed: u64, _n: usize) -> Result<Vec<Value>> { bail!("C14: driver not built") }
+// ---------------------------------------------------------------------------------------------
+// values -> API types
+
+fn s<'a>(v: &'a Value, what: &str) -> Result<&'a str> { v.as_str().with_context(|| format!("{what}: string expected, got {v}")) }
+fn arr(v: &Value) -> &[Value] { v.as_array().map(|a| a.as_slice()).unwrap_or(&[]) }
+
+fn nest_from_json(v: &Value) -> Result<Nest> {
+	let m = arr(&v["m"]);
+	Ok(Nest {
+		nest_type: match s(&v["type"], "type")? { "anonymous" => NestType::Anonymous, "inner" => NestType::Inner, "local" => NestType::Local, t => bail!("nest type {t}") },
+		class_name: ObjClassName::try_from(js(s(&v["cls"], "cls")?))?,
+		encl_class_name: ObjClassName::try_from(js(s(&v["encl"], "encl")?))?,
+		encl_method: if m.is_empty() { None } else {
+			Some(MethodNameAndDesc { name: MethodName::try_from(js(s(&m[0], "m name")?))?, desc: MethodDescriptor::try_from(js(s(&m[1], "m desc")?))? })
+		},
+		inner_name: ObjClassName::try_from(js(s(&v["inner"], "inner")?))?,
+		inner_access: (v["acc"].as_u64().context("acc")? as u16).into(),
+	})
+}
+
+/// The table as a value, or - `via` = "text" - read by the code under test from the rendered text (None: the text was refused).
+fn nests_of<N>(v: &Value) -> Result<Option<Nests<N>>> {
+	if v["via"] == "text" {
+		return Ok(Nests::<N>::read(&s(&v["text"], "text")?.as_bytes().to_vec()).ok());
+	}
+	let mut all = IndexMap::new();
+	for n in arr(&v["nests"]) {
+		let n = nest_from_json(n)?;
+		all.insert(n.class_name.clone(), n);
+	}
+	Ok(Some(Nests { phantom: PhantomData, all }))
+}
+
+fn nest_to_json(n: &Nest) -> Value {
+	json!({
+		"cls": n.class_name.to_string(), "encl": n.encl_class_name.to_string(),
+		"m": match &n.encl_method { None => json!([]), Some(m) => json!([m.name.to_string(), m.desc.to_string()]) },
+		"inner": n.inner_name.to_string(), "acc": u16::from(n.inner_access),
+		"type": match n.nest_type { NestType::Anonymous => "anonymous", NestType::Inner => "inner", NestType::Local => "local" },
+	})
+}
+fn nests_to_json<N>(n: &Nests<N>) -> Value {
+	let mut m = Map::new();
+	let mut order = vec![];
+	for (k, v) in &n.all { m.insert(k.to_string(), nest_to_json(v)); order.push(json!(k.to_string())); }
+	json!({"st": "ok", "nests": m, "order": order})
+}
+
+// ---------------------------------------------------------------------------------------------
+// recipe -> class file (independent assembler), class file -> projection (independent parser)
+
+fn opt(x: &Value) -> Option<&str> { x.as_str().filter(|t| !t.is_empty()) }
+
+fn class_facts(name: &str, c: &Value) -> Result<Value> {
+	let fields: Vec<Value> = arr(&c["fields"]).iter().map(|f| cfkit::samples::member(0x0001, f[0].as_str().unwrap_or("f"), f[1].as_str().unwrap_or("I"), json!({}))).collect();
+	let mut methods: Vec<Value> = arr(&c["methods"]).iter().map(|m| cfkit::samples::member(0x0401, m[0].as_str().unwrap_or("m"), m[1].as_str().unwrap_or("()V"), json!({}))).collect();
+	let code = arr(&c["code"]);
+	if !code.is_empty() {
+		let mut insns = vec![];
+		let mut catches = vec![];
+		let mut throws = vec![];
+		for r in code {
+			let (kind, owner, mname, desc) = (s(&r[0], "kind")?, r[1].as_str().unwrap_or(""), r[2].as_str().unwrap_or(""), r[3].as_str().unwrap_or(""));
+			let opc = r.get(4).and_then(|x| x.as_str());
+			match kind {
+				"insn_class" => insns.push(json!({"op": opc.unwrap_or(if owner.starts_with('[') { "checkcast" } else { "new" }), "class": owner})),
+				"insn_field" => insns.push(json!({"op": opc.unwrap_or("getstatic"), "owner": owner, "name": mname, "desc": desc})),
+				"insn_method" => match opc.unwrap_or("invokestatic") {
+					"invokeinterface" => insns.push(json!({"op": "invokeinterface", "owner": owner, "name": mname, "desc": desc})),
+					o => insns.push(json!({"op": o, "owner": owner, "name": mname, "desc": desc, "itf": false})),
+				},
+				"ldc_class" => insns.push(json!({"op": "ldc", "const": {"class": owner}})),
+				"ldc_mtype" => insns.push(json!({"op": "ldc", "const": {"method_type": desc}})),
+				"catch" => catches.push(owner.to_owned()),
+				"exceptions" => throws.push(json!(owner)),
+				k => bail!("recipe: unknown code row kind {k}"),
+			}
+		}
+		insns.push(json!({"op": "return"}));
+		let last = insns.len() - 1;
+		if last == 0 && !catches.is_empty() { insns.insert(0, json!({"op": "nop"})); }
+		let last = insns.len() - 1;
+		let exc: Vec<Value> = catches.iter().map(|c| json!({"start": 0, "end": last, "handler": last, "catch": c})).collect();
+		let mut m = cfkit::samples::method_with_code(0x0009, "refs", "()V", cfkit::samples::code(16, 4, insns, exc, json!({})));
+		if !throws.is_empty() { m["attrs"]["Exceptions"] = Value::Array(throws); }
+		methods.push(m);
+	}
+	let mut attrs = Map::new();
+	let ic: Vec<Value> = arr(&c["ic"]).iter().map(|r| {
+		let mut o = Map::new();
+		o.insert("inner".into(), r[0].clone());
+		if let Some(x) = opt(&r[1]) { o.insert("outer".into(), json!(x)); }
+		if let Some(x) = opt(&r[2]) { o.insert("name".into(), json!(x)); }
+		o.insert("access".into(), r[3].clone());
+		Value::Object(o)
+	}).collect();
+	if !ic.is_empty() { attrs.insert("InnerClasses".into(), Value::Array(ic)); }
+	let em = arr(&c["em"]);
+	if !em.is_empty() {
+		let mut o = Map::new();
+		o.insert("class".into(), em[0].clone());
+		if let (Some(n), Some(d)) = (opt(&em[1]), opt(&em[2])) { o.insert("method".into(), json!({"name": n, "desc": d})); }
+		attrs.insert("EnclosingMethod".into(), Value::Object(o));
+	}
+	let ver = c.get("ver").and_then(|v| v.as_u64()).unwrap_or(52) as u16;
+	let mut f = cfkit::samples::class([ver, 0], 0x0421, name, opt(&c["super"]), fields, methods, Value::Object(attrs));
+	f["interfaces"] = if c["itfs"].is_array() { c["itfs"].clone() } else { json!([]) };
+	Ok(f)
+}
+
+fn build_jar(recipe: &Value, others: &Value, dirs: &Value) -> Result<Vec<(String, Vec<u8>)>> {
+	let mut entries = vec![];
+	for (name, c) in recipe.as_object().context("jar recipe")? {
+		let f = class_facts(name, c)?;
+		let bytes = cfkit::asm::assemble(&f, &cfkit::asm::Encoding::default()).map_err(|e| anyhow!("assemble {name}: {e:?}"))?;
+		entries.push((format!("{name}.class"), bytes));
+	}
+	for (name, text) in others.as_object().into_iter().flatten() {
+		entries.push((name.clone(), text.as_str().unwrap_or("").as_bytes().to_vec()));
+	}
+	for d in arr(dirs) { entries.push((d.as_str().unwrap_or("d/").to_owned(), vec![])); }
+	Ok(entries)
+}
+
+fn sd(v: Option<&Value>) -> String { match v { None | Some(Value::Null) => String::new(), Some(x) => cfkit::facts::s_display(x) } }
+
+/// What a class file states, split into reference rows (without the InnerClasses / EnclosingMethod rows), those two attributes, and an
+/// identifier of everything else.
+fn project_class(bytes: &[u8]) -> Result<Value> {
+	let p = cfkit::parse::parse_class_facts_only(bytes).map_err(|e| anyhow!("result class does not parse: {e:?}"))?;
+	let facts = p.facts;
+	let mut rowseq = vec![];
+	let mut bag: BTreeMap<String, u64> = BTreeMap::new();
+	for r in cfkit::refs::references(&facts) {
+		if matches!(r.kind, "inner_class_inner" | "inner_class_outer" | "enclosing_method") { continue; }
+		let (o, n, d) = (sd(r.owner.as_ref()), sd(r.name.as_ref()), sd(r.desc.as_ref()));
+		*bag.entry(format!("{} {} {} {}", r.kind, o, n, d)).or_insert(0) += 1;
+		rowseq.push(json!([r.kind, o, n, d]));
+	}
+	let ic: Vec<Value> = arr(&facts["attrs"]["InnerClasses"]).iter().map(|r| json!([sd(r.get("inner")), sd(r.get("outer")), sd(r.get("name")), r["access"]])).collect();
+	let em = match facts["attrs"].get("EnclosingMethod") {
+		None => json!([]),
+		Some(e) => json!([sd(e.get("class")), sd(e.get("method").and_then(|m| m.get("name"))), sd(e.get("method").and_then(|m| m.get("desc")))]),
+	};
+	let mut res = cfkit::refs::residual(&facts);
+	if let Some(a) = res.get_mut("attrs").and_then(|a| a.as_object_mut()) { a.remove("InnerClasses"); a.remove("EnclosingMethod"); }
+	let mut h = std::collections::hash_map::DefaultHasher::new();
+	serde_json::to_string(&res)?.hash(&mut h);
+	Ok(json!({"rows": bag, "rowseq": rowseq, "ic": ic, "em": em, "res": format!("{:016x}", h.finish()), "ver": facts["version"], "acc": facts["access"]}))
+}
+
+/// Projection of a whole jar: classes by name (entry name without ".class"; must equal the name the class states), other entries by content.
+fn project_jar(entries: &[(String, Vec<u8>)]) -> Result<Value> {
+	let mut classes = Map::new();
+	let mut names = Map::new();
+	let mut others = Map::new();
+	let mut dirs = vec![];
+	for (name, data) in entries {
+		if let Some(cn) = name.strip_suffix(".class") {
+			let p = project_class(data)?;
+			let this = p["rowseq"].as_array().and_then(|r| r.iter().find(|x| x[0] == "this")).map(|x| x[1].clone()).unwrap_or(Value::Null);
+			let key = if this == json!(cn) { cn.to_owned() } else { format!("{cn} (states {this})") };
+			if classes.contains_key(&key) { bail!("duplicate entry {name}"); }
+			names.insert(key.clone(), json!(true));
+			classes.insert(key, p);
+		} else if !name.ends_with('/') {
+			others.insert(name.clone(), json!(String::from_utf8_lossy(data)));
+		} else {
+			dirs.push(json!(name));
+		}
+	}
+	Ok(json!({"st": "ok", "names": names, "classes": classes, "others": others, "dirs": dirs}))
+}
+
+/// Ok((result entries, id of the non-reference content of every input class)) or Err(stage that refused).
+type JarRun = std::result::Result<(Vec<(String, Vec<u8>)>, Value), &'static str>;
+fn run_nest_jar(v: &Value) -> Result<JarRun> {
+	let entries = build_jar(&v["jar"], &v["others"], &v["dirs"])?;
+	let mut res_in = Map::new();
+	for (name, data) in &entries {
+		if let Some(cn) = name.strip_suffix(".class") { res_in.insert(cn.to_owned(), project_class(data)?["res"].clone()); }
+	}
+	let src = UnnamedMemJar { data: zip_entries(&entries)? };
+	let Some(nests) = nests_of::<NsA>(v)? else { return Ok(Err("read")) };
+	let out = match dukenest::nest_jar(true, &src, nests) { Ok(o) => o, Err(_) => return Ok(Err("nest_jar")) };
+	let mem = match out.to_mem() { Ok(m) => m, Err(_) => return Ok(Err("write")) };
+	Ok(Ok((unzip_entries(&mem.data)?, Value::Object(res_in))))
+}
+
+fn src_view(t: &Value) -> Value {
+	let mut t = t.clone();
+	if let Some(k) = t.get_mut("kids").and_then(|k| k.as_object_mut()) {
+		for c in k.values_mut() {
+			let first = c["names"][0].clone();
+			c["names"] = json!([first, ""]);
+		}
+	}
+	t
+}
+fn res_map(r: Result<Mappings<2, (NsA, NsB)>>) -> Value {
+	match r { Ok(m) => { let t = tree_to_json(&m); json!({"st": "ok", "src": src_view(&t), "v": t}) }, Err(_) => json!({"st": "err"}) }
+}
+
+pub fn exec(v: &Value) -> Result<Value> {
+	match s(&v["op"], "op")? {
+		"nest_jar" => Ok(match run_nest_jar(v)? {
+			Ok((e, res_in)) => { let mut p = project_jar(&e)?; p["resIn"] = res_in; p },
+			Err(w) => json!({"st": "err", "where": w}),
+		}),
+		"agree" => {
+			let jar = match run_nest_jar(v)? { Ok((e, _)) => project_jar(&e)?, Err(w) => return Ok(json!({"st": "err", "where": w})) };
+			let tree: Mappings<2, (NsA, NsB)> = json_to_tree(&v["tree"])?;
+			let Some(nests) = nests_of::<NsA>(v)? else { return Ok(json!({"st": "err", "where": "read"})) };
+			let m = match dukenest::apply_nests_to_mappings(tree, &nests) { Ok(m) => m, Err(_) => return Ok(json!({"st": "err", "where": "apply"})) };
+			let mut names = Map::new();
+			for k in m.classes.keys() { names.insert(k.to_string(), json!(true)); }
+			Ok(json!({"st": "ok", "jarNames": jar["names"], "mapNames": names, "others": jar["others"]}))
+		},
+		op @ ("apply" | "undo" | "applyundo") => {
+			let tree: Mappings<2, (NsA, NsB)> = json_to_tree(&v["tree"])?;
+			let Some(nests) = nests_of::<NsA>(v)? else { return Ok(json!({"st": "err", "where": "read"})) };
+			Ok(res_map(match op {
+				"apply" => dukenest::apply_nests_to_mappings(tree, &nests),
+				"undo" => dukenest::undo_nests_to_mappings(tree, &nests),
+				_ => dukenest::apply_nests_to_mappings(tree, &nests).and_then(|m| dukenest::undo_nests_to_mappings(m, &nests)),
+			}))
+		},
+		"remap_nests" => {
+			let tree: Mappings<2, (NsA, NsB)> = json_to_tree(&v["tree"])?;
+			let Some(nests) = nests_of::<NsA>(v)? else { return Ok(json!({"st": "err", "where": "read"})) };
+			Ok(match dukenest::remap_nests(&nests, &tree) { Ok(n) => nests_to_json(&n), Err(_) => json!({"st": "err"}) })
+		},
+		"read" => Ok(match Nests::<NsA>::read(&s(&v["text"], "text")?.as_bytes().to_vec()) { Ok(n) => nests_to_json(&n), Err(_) => json!({"st": "err"}) }),
+		op => bail!("C14: unknown op {op}"),
+	}
+}
+
+// ---------------------------------------------------------------------------------------------
+// random inputs (never expectations)
+
+fn render(nests: &[Value]) -> String {
+	let mut t = String::new();
+	for n in nests {
+		let m = arr(&n["m"]);
+		t.push_str(&format!("{}\t{}\t{}\t{}\t{}\t{}\n", n["cls"].as_str().unwrap_or(""), n["encl"].as_str().unwrap_or(""),
+			m.first().and_then(|x| x.as_str()).unwrap_or(""), m.get(1).and_then(|x| x.as_str()).unwrap_or(""), n["inner"].as_str().unwrap_or(""), n["acc"]));
+	}
+	t
+}
+
+fn nest_type_of(inner: &str) -> &'static str {
+	// the three kinds of the file format, needed to hand a *value* to the API (the text path lets the code decide)
+	if inner.bytes().all(|b| b.is_ascii_digit()) { "anonymous" } else if inner.as_bytes()[0].is_ascii_digit() { "local" } else { "inner" }
+}
+
+struct World { classes: Vec<String>, absent: Vec<String>, missing: Vec<String> }
+
+fn gen_world(r: &mut StdRng) -> World {
+	let pk = *pick(r, &["net/minecraft/unmapped", "a", "com/example/deep/pkg", "x/y"]);
+	let style = r.gen_range(0..3);
+	let name = |i: usize| match style { 0 => format!("{pk}/C_{}", 1000 + i * 37), 1 => format!("{pk}/Cls{i}"), _ => format!("{}{}", ["a/A", "b/B", "C"][i % 3], i) };
+	let nc = r.gen_range(3..10usize);
+	World {
+		classes: (0..nc).map(name).collect(),
+		absent: (0..3).map(|i| format!("{pk}/Gone{i}")).collect(),
+		missing: (0..2).map(|i| format!("{pk}/Missing{i}")).collect(),
+	}
+}
+
+fn gen_desc(r: &mut StdRng, pool: &[String], method: bool) -> String {
+	let ty = |r: &mut StdRng| -> String {
+		let dims = if r.gen_bool(0.25) { r.gen_range(1..3) } else { 0 };
+		let base = if r.gen_bool(0.3) { pick(r, &["I", "J", "Z", "D", "Ljava/lang/String;"]).to_string() } else { format!("L{};", pick(r, pool)) };
+		format!("{}{}", "[".repeat(dims), base)
+	};
+	if !method { return ty(r); }
+	let n = r.gen_range(0..4);
+	let ps: String = (0..n).map(|_| ty(r)).collect();
+	let ret = if r.gen_bool(0.3) { "V".to_owned() } else { ty(r) };
+	format!("({ps}){ret}")
+}
+
+fn gen_recipe(r: &mut StdRng, w: &World) -> Value {
+	let mut pool: Vec<String> = w.classes.clone();
+	pool.extend(w.absent.iter().cloned());
+	pool.extend(w.missing.iter().cloned());
+	let mut jar = Map::new();
+	for (i, c) in w.classes.iter().enumerate() {
+		let sup = if i > 0 && r.gen_bool(0.4) { w.classes[r.gen_range(0..i)].clone() } else { "java/lang/Object".to_owned() };
+		let itfs: Vec<String> = (0..r.gen_range(0..3)).map(|_| pick(r, &pool).clone()).collect();
+		let fields: Vec<Value> = (0..r.gen_range(0..4)).map(|k| json!([format!("f{k}"), gen_desc(r, &pool, false)])).collect();
+		let mut methods: Vec<Value> = (0..r.gen_range(0..4)).map(|k| json!([format!("m{k}"), gen_desc(r, &pool, true)])).collect();
+		methods.push(json!(["encl", "()V"]));
+		if r.gen_bool(0.5) { methods.push(json!(["encl2", gen_desc(r, &pool, true)])); }
+		let mut code = vec![];
+		for _ in 0..r.gen_range(0..9) {
+			let o = pick(r, &pool).clone();
+			code.push(match r.gen_range(0..8) {
+				0 => json!(["insn_class", o, "", "", pick(r, &["new", "checkcast", "instanceof", "anewarray"])]),
+				1 => json!(["insn_class", format!("[L{o};"), "", "", pick(r, &["checkcast", "instanceof", "anewarray"])]),
+				2 => json!(["insn_field", o, "fld", gen_desc(r, &pool, false), pick(r, &["getstatic", "putstatic", "getfield", "putfield"])]),
+				3 => json!(["insn_method", o, "call", gen_desc(r, &pool, true), pick(r, &["invokestatic", "invokevirtual", "invokespecial", "invokeinterface"])]),
+				4 => json!(["ldc_class", o, "", ""]),
+				5 => json!(["ldc_mtype", "", "", gen_desc(r, &pool, true)]),
+				6 => json!(["catch", o, "", ""]),
+				_ => json!(["exceptions", o, "", ""]),
+			});
+		}
+		let ic: Vec<Value> = if r.gen_bool(0.2) { vec![json!([pick(r, &pool), if r.gen_bool(0.5) { pick(r, &pool).clone() } else { String::new() }, if r.gen_bool(0.5) { "Old" } else { "" }, r.gen_range(0..32)])] } else { vec![] };
+		let em = if r.gen_bool(0.1) { json!([pick(r, &pool), "encl", "()V"]) } else { json!([]) };
+		jar.insert(c.clone(), json!({"super": sup, "itfs": itfs, "fields": fields, "methods": methods, "code": code, "ic": ic, "em": em,
+			"ver": *pick(r, &[49u16, 50, 52, 55, 61])}));
+	}
+	Value::Object(jar)
+}
+
+/// A table over the world: chains (the enclosing class of a nest may be the class of another nest), missing enclosing classes, classes not in
+/// the jar, the three kinds with enclosing methods present / absent / not given, custom and derived inner names. `plain` keeps listed classes
+/// that are absent from the jar from being enclosing classes.
+fn gen_nests(r: &mut StdRng, w: &World, recipe: &Value, plain: bool, only_applicable: bool) -> Vec<Value> {
+	let mut order: Vec<usize> = (0..w.classes.len()).collect();
+	for i in (1..order.len()).rev() { order.swap(i, r.gen_range(0..=i)); }
+	let k = r.gen_range(1..=order.len().min(8));
+	let mut nests = vec![];
+	let mut used_inner: Vec<String> = vec![];
+	for (j, &ci) in order.iter().take(k).enumerate() {
+		let absent = !only_applicable && r.gen_bool(0.12);
+		let cls = if absent { w.absent[j % w.absent.len()].clone() } else { w.classes[ci].clone() };
+		if nests.iter().any(|n: &Value| n["cls"] == json!(cls)) { continue; }
+		// enclosing class: a class not yet nested in this table "after" this one (acyclic: only classes later in `order`), a missing class,
+		// or (not plain) a listed absent class
+		let later: Vec<&usize> = order.iter().skip(j + 1).collect();
+		let encl = match r.gen_range(0..10) {
+			0 => w.missing[r.gen_range(0..w.missing.len())].clone(),
+			1 if !plain => w.absent[(j + 1) % w.absent.len()].clone(),
+			_ if !later.is_empty() => w.classes[**pick(r, &later)].clone(),
+			_ => w.missing[0].clone(),
+		};
+		if encl == cls { continue; }
+		let encl_methods: Vec<(String, String)> = arr(&recipe[&encl]["methods"]).iter().map(|m| (m[0].as_str().unwrap_or("").to_owned(), m[1].as_str().unwrap_or("").to_owned())).collect();
+		let simple = cls.rsplit('/').next().unwrap_or(&cls).to_owned();
+		let mut kind = r.gen_range(0..3);
+		if only_applicable && kind == 2 && encl_methods.is_empty() { kind = 0; }
+		let wrong = !only_applicable && r.gen_bool(0.2);       // violate the rule of the kind
+		let present_m = || -> Option<Value> { encl_methods.first().map(|(n, d)| json!([n, d])) };
+		// a method the enclosing class does not declare: a foreign name, or a declared name with another descriptor
+		let absent_m = match encl_methods.first() { Some((n, _)) if r.gen_bool(0.5) => json!([n, "(Ljava/lang/Void;)J"]), _ => json!(["nope", "(I)V"]) };
+		let (inner, m) = match kind {
+			0 => {      // inner: derived or custom name; no method, or one the enclosing class does not declare
+				let inner = if r.gen_bool(0.5) { simple.clone() } else { format!("In{j}") };
+				let m = if wrong { present_m().unwrap_or(json!([])) } else if r.gen_bool(0.3) { absent_m.clone() } else { json!([]) };
+				(inner, m)
+			},
+			1 => {      // anonymous
+				let inner = if wrong { pick(r, &["0", "00"]).to_string() } else { format!("{}{}", if r.gen_bool(0.2) { "0" } else { "" }, j + 1) };
+				let m = match r.gen_range(0..3) { 0 => json!([]), 1 => present_m().unwrap_or(json!([])), _ => absent_m.clone() };
+				(inner, m)
+			},
+			_ => {      // local
+				let inner = format!("{}{}", j + 1, if r.gen_bool(0.5) { simple.clone() } else { format!("Loc{j}") });
+				let m = if wrong { if r.gen_bool(0.5) { json!([]) } else { absent_m.clone() } } else { present_m().unwrap_or(absent_m.clone()) };
+				(inner, m)
+			},
+		};
+		let key = format!("{encl}${inner}");
+		if used_inner.contains(&key) { continue; }
+		used_inner.push(key);
+		nests.push(json!({"cls": cls, "encl": encl, "m": m, "inner": inner, "acc": *pick(r, &[0u16, 1, 2, 8, 9, 10, 0x4018, 0x1000, 0x0608]), "type": nest_type_of(&inner)}));
+	}
+	if r.gen_bool(0.5) { nests.reverse(); }
+	nests
+}
+
+/// Mappings over the world: most classes named (plain, Calamus style C_<n>, already nested A__B), some without target name, some absent;
+/// members whose descriptors mention classes of the world.
+fn gen_tree(r: &mut StdRng, names: &[String], pool: &[String], all_named: bool, recipe: Option<&Value>) -> Value {
+	let mut kids = Map::new();
+	for (i, c) in names.iter().enumerate() {
+		if !all_named && r.gen_bool(0.15) { continue; }
+		let simple = c.rsplit('/').next().unwrap_or(c);
+		let tgt = if !all_named && r.gen_bool(0.08) { String::new() } else {
+			match r.gen_range(0..10) { 0 => format!("named/C_{}", 100 + i), 1 => format!("named/Outer{}__{}N", i % 2, simple), _ => format!("named/{simple}N") }
+		};
+		let mut mk = Map::new();
+		for k in 0..r.gen_range(0..3) {
+			let d = gen_desc(r, pool, false);
+			let n = format!("f{k}");
+			mk.insert(format!("f {n} {d}"), node("f", json!([n, if r.gen_bool(0.7) { format!("field{k}") } else { String::new() }]), &d, 0, json!([]), Map::new()));
+		}
+		let declared: Vec<(String, String)> = recipe.map(|rc| arr(&rc[c]["methods"]).iter().map(|m| (m[0].as_str().unwrap_or("").to_owned(), m[1].as_str().unwrap_or("").to_owned())).collect()).unwrap_or_default();
+		for k in 0..r.gen_range(0..3) {
+			let (n, d) = if !declared.is_empty() && r.gen_bool(0.6) { pick(r, &declared).clone() } else { (format!("m{k}"), gen_desc(r, pool, true)) };
+			let mut pk = Map::new();
+			if r.gen_bool(0.3) { pk.insert("p 1".into(), node("p", json!(["", "arg"]), "", 1, json!([]), Map::new())); }
+			mk.insert(format!("m {n} {d}"), node("m", json!([n, if r.gen_bool(0.7) { format!("method{k}") } else { String::new() }]), &d, 0, if r.gen_bool(0.2) { json!(["doc"]) } else { json!([]) }, pk));
+		}
+		kids.insert(format!("c {c}"), node("c", json!([c, tgt]), "", 0, json!([]), mk));
+	}
+	json!({"ns": ["a", "b"], "doc": [], "kids": kids})
+}
+
+fn node(kind: &str, names: Value, desc: &str, idx: usize, doc: Value, kids: Map<String, Value>) -> Value {
+	json!({"kind": kind, "names": names, "desc": desc, "idx": idx, "doc": doc, "kids": Value::Object(kids)})
+}
+
+/// The input jar as the independent parser sees it (rows in their order): part of the *input* of a recorded case.
+fn project_input(recipe: &Value) -> Result<Value> {
+	let entries = build_jar(recipe, &Value::Null, &Value::Null)?;
+	let mut m = Map::new();
+	for (name, data) in &entries {
+		let mut p = project_class(data)?;
+		let o = p.as_object_mut().unwrap();
+		let seq = o.remove("rowseq").unwrap();
+		o.insert("rows".into(), seq);
+		m.insert(name.trim_end_matches(".class").to_owned(), p);
+	}
+	Ok(Value::Object(m))
+}
+
+pub fn gen(seed: u64, n: usize) -> Result<Vec<Value>> {
+	let mut r = StdRng::seed_from_u64(seed ^ 0xC14);
+	let mut out = vec![];
+	while out.len() < n {
+		let w = gen_world(&mut r);
+		let recipe = gen_recipe(&mut r, &w);
+		let mut pool = w.classes.clone();
+		pool.extend(w.absent.iter().cloned());
+		let via = if r.gen_bool(0.5) { "text" } else { "value" };
+		match r.gen_range(0..10) {
+			0..=3 => {
+				let plain = r.gen_bool(0.9);
+				let nests = gen_nests(&mut r, &w, &recipe, plain, false);
+				let others = if r.gen_bool(0.5) { json!({"META-INF/MANIFEST.MF": "Manifest-Version: 1.0\n", "assets/x.txt": "p/A"}) } else { json!({}) };
+				let dirs = if r.gen_bool(0.4) { json!(["assets/", "META-INF/"]) } else { json!([]) };
+				out.push(json!({"op": "nest_jar", "jar": recipe, "jin": project_input(&recipe)?, "others": others, "dirs": dirs, "via": via, "text": render(&nests), "nests": nests}));
+			},
+			4 => {
+				let nests = gen_nests(&mut r, &w, &recipe, true, true);
+				let mut names = w.classes.clone();
+				for nst in &nests { let e = nst["encl"].as_str().unwrap_or("").to_owned(); if !names.contains(&e) { names.push(e); } }
+				let tree = gen_tree(&mut r, &names, &pool, true, Some(&recipe));
+				out.push(json!({"op": "agree", "jar": recipe, "jin": project_input(&recipe)?, "tree": tree, "via": via, "text": render(&nests), "nests": nests}));
+			},
+			5..=7 => {
+				let nests = gen_nests(&mut r, &w, &recipe, true, false);
+				let named = r.gen_bool(0.6);
+				let tree = gen_tree(&mut r, &w.classes, &pool, named, Some(&recipe));
+				let op = *pick(&mut r, &["apply", "applyundo", "applyundo"]);
+				out.push(json!({"op": op, "tree": tree, "via": via, "text": render(&nests), "nests": nests}));
+			},
+			8 => {
+				let nests = gen_nests(&mut r, &w, &recipe, true, false);
+				let named = r.gen_bool(0.5);
+				let tree = gen_tree(&mut r, &w.classes, &pool, named, Some(&recipe));
+				out.push(json!({"op": "remap_nests", "tree": tree, "via": via, "text": render(&nests), "nests": nests}));
+			},
+			_ => {
+				let nests = gen_nests(&mut r, &w, &recipe, true, false);
+				let mut text = render(&nests);
+				match r.gen_range(0..6) {
+					0 => text = text.replace('\n', "\r\n"),
+					1 => { text.pop(); },
+					2 => text.push_str("x\ty\n"),
+					3 => text = text.replacen('\t', "\t\t", 1),
+					_ => {},
+				}
+				out.push(json!({"op": "read", "text": text}));
+			},
+		}
+	}
+	Ok(out)
+}
